@@ -40,10 +40,34 @@ def limit(repo):
     if len(v) != 1 or v[0][0] != 'num': raise TranslateError('MAX_MACRO_NESTING: not a literal: %s' % norm_text(v))
     return parse_num(v[0])
 
+# fix fC: the macro size limit and the one function that expands repeat groups (token pin)
+PUSH_GROUP = ('let count = count . max ( 0 ) as usize ; '
+              'if rec . chars ( ) . count ( ) . saturating_add ( count . saturating_mul ( group . chars ( ) . count ( ) ) ) > MAX_MACRO_SIZE { '
+              'return Err ( ParserError :: Error ( format ! ( "macro larger than {MAX_MACRO_SIZE} characters" ) ) . into ( ) ) ; } '
+              'rec . push_str ( & group . repeat ( count ) ) ; Ok ( ( ) )')
+
+def size_limit(repo):
+    src = Source(os.path.join(repo, 'src/parsers/ansi/mod.rs'))
+    ty, v = src.find_const('MAX_MACRO_SIZE')
+    if norm_text(ty) != 'usize': raise TranslateError('MAX_MACRO_SIZE: type changed to %s' % norm_text(ty))
+    if len(v) != 1 or v[0][0] != 'num': raise TranslateError('MAX_MACRO_SIZE: not a literal: %s' % norm_text(v))
+    m = parse_num(v[0])
+    if not (1 <= m <= (1 << 24)): raise TranslateError('MAX_MACRO_SIZE = %d: outside 1 ..= 16 Mi characters (the bound of C03 is in these terms)' % m)
+    dcs = Source(os.path.join(repo, 'src/parsers/ansi/dcs.rs'))
+    _, body = dcs.find_fn('push_repeat_group')
+    if norm_text(body) != PUSH_GROUP:
+        raise TranslateError('Parser::push_repeat_group changed (pinned token by token):\n  source: %s\n  pinned: %s' % (norm_text(body), PUSH_GROUP))
+    hexm = norm_text(dcs.find_fn('parse_hex_macro_sequence')[1])
+    if hexm.count('Self :: push_repeat_group ( & mut marco_rec , & repeat_rec , repeat_number ) ? ;') != 2 or 'push_str' in hexm \
+       or hexm.count('if marco_rec . chars ( ) . count ( ) > MAX_MACRO_SIZE { return Err (') != 1:
+        raise TranslateError('parse_hex_macro_sequence: repeat groups must be expanded by push_repeat_group only (twice) and the finished macro checked against MAX_MACRO_SIZE')
+    return m
+
 def generate(repo):
     path = os.path.join(repo, 'src/parsers/ansi/mod.rs')
     src = Source(path)
     n = limit(repo)
+    msize = size_limit(repo)
     if n < 1: raise TranslateError('MAX_MACRO_NESTING = %d: no macro could be invoked at all' % n)
     if n * PER_LEVEL_KIB > BUDGET_KIB:
         raise TranslateError('MAX_MACRO_NESTING = %d: %d levels x %d KiB per level exceed the stack budget of %d KiB'
@@ -81,7 +105,10 @@ def generate(repo):
         raise TranslateError('call sites of invoke_macro_by_id in ansi/mod.rs changed: %s' % calls)
     txt = ('(* GENERATED by translator/gen_macro.py from src/parsers/ansi/mod.rs - do not edit. *)\n'
            '(* pub const MAX_MACRO_NESTING: usize = %d;   deepest nesting of macro invocations (Parser::invoke_macro_by_id) *)\n'
-           'Definition MAX_MACRO_NESTING : nat := %d%%nat.\n' % (n, n))
+           'From Coq Require Import ZArith.\n'
+           'Definition MAX_MACRO_NESTING : nat := %d%%nat.\n'
+           '(* pub const MAX_MACRO_SIZE: usize = %d;   largest hex macro in characters (Parser::push_repeat_group, parse_hex_macro_sequence) *)\n'
+           'Definition MAX_MACRO_SIZE : Z := %d%%Z.\n' % (n, n, msize, msize))
     return {'MacroLimit.v': txt}
 
 if __name__ == '__main__':
